@@ -52,6 +52,25 @@ def yoda_py(text):
     return ast.unparse(ast.fix_missing_locations(_Yoda().visit(ast.parse(text)))) + "\n"
 
 
+def _is_doc(st):
+    return isinstance(st, ast.Expr) and isinstance(st.value, ast.Constant) and isinstance(st.value.value, str)
+
+
+def noop_py(text):
+    """an unused local assigned at the top of every non-trivial function and loop body"""
+    tree = ast.parse(text)
+    for n in ast.walk(tree):
+        if isinstance(n, (ast.FunctionDef, ast.AsyncFunctionDef)):
+            body = [st for st in n.body if not _is_doc(st)]
+            if not body or all(isinstance(st, (ast.Pass, ast.Raise)) or (isinstance(st, ast.Expr) and isinstance(st.value, ast.Constant)) for st in body):
+                continue  # abstract / trivial hooks stay trivial
+            k = 1 if n.body and _is_doc(n.body[0]) else 0
+            n.body.insert(k, ast.parse("_probe_unused = None").body[0])
+        elif isinstance(n, (ast.For, ast.While)):
+            n.body.insert(0, ast.parse("_probe_unused = None").body[0])
+    return ast.unparse(ast.fix_missing_locations(tree)) + "\n"
+
+
 _SKIP = (tokenize.NL, tokenize.COMMENT, tokenize.NEWLINE, tokenize.INDENT, tokenize.DEDENT)
 
 
@@ -95,13 +114,14 @@ def rename_pyx(rel, text, suffix="_rn"):
 
 def variants(ctx):
     """{name: overrides} for the files the property read"""
-    ref, ren, yod = {}, {}, {}
+    ref, ren, yod, nop = {}, {}, {}, {}
     for rel in sorted(ctx.files):
         text = ctx.src(rel).text
         if rel.endswith(".py"):
             ref[rel] = reformat_py(text)
             ren[rel] = rename_py(text)
             yod[rel] = yoda_py(text)
+            nop[rel] = noop_py(text)
         elif rel.endswith(".pyx"):
             ren[rel] = rename_pyx(rel, text)
     out = {}
@@ -111,4 +131,6 @@ def variants(ctx):
         out["auto-rename-all-locals"] = ren
     if yod:
         out["auto-constants-on-the-left"] = yod
+    if nop:
+        out["auto-unused-local-inserted"] = nop
     return out
